@@ -427,6 +427,28 @@ def rule_widen1(ctx: Ctx) -> RuleResult:
     for x in ast.walk(route):
         if isinstance(x, ast.Call) and isinstance(x.func, ast.Attribute) and x.func.attr == "append" and isinstance(x.func.value, ast.Name):
             cats.add(x.func.value.id)
+    # WIDEN-3: what is routed is the member as unwrapped from Optional: the name bound to `<member>.type` under the Optional
+    # test is the one every test and every append of the loop uses
+    lv = norm(route.target)
+    unwrapped = None
+    for x in ast.walk(route):
+        if isinstance(x, ast.Assign) and isinstance(x.targets[0], ast.Name) and norm(x.value) == f"{lv}.type":
+            unwrapped = x.targets[0].id
+    if unwrapped is not None:
+        rr.instances += 1
+        wrong = []
+        for x in ast.walk(route):
+            if isinstance(x, ast.Call) and isinstance(x.func, ast.Attribute) and x.func.attr == "append" and x.args and \
+                    isinstance(x.args[0], ast.Name) and x.args[0].id in (lv, unwrapped) and x.args[0].id != unwrapped:
+                wrong.append(x)
+            if isinstance(x, ast.Call) and norm(x.func) == "isinstance" and x.args and isinstance(x.args[0], ast.Name) and \
+                    x.args[0].id == lv and unwrapped != lv and norm(x.args[1]) != "DOptional":
+                wrong.append(x)
+        rr.ob(f.relpath, f.qualname, f"{unwrapped} = {lv}.type", "a member of the form Optional[X] is routed as X (the wrapper only "
+              "contributes Null): every category receives the unwrapped member", DISCHARGED if not wrong else VIOLATED,
+              "all tests and appends use the unwrapped member" if not wrong else
+              f"`{norm(wrong[0])[:50]}` still uses `{lv}`, the member with its Optional wrapper: e.g. Optional[List[X]] lands in the list "
+              f"category as a whole and becomes an element type", (wrong[0].lineno if wrong else route.lineno))
     # removals apply to the routed candidates (Optional members are unwrapped by the routing loop; a removal from the
     # raw member list does not see the int inside Optional[int])
     for n in walk_no_nested(f.node):
@@ -740,6 +762,14 @@ def rule_drop1(ctx: Ctx) -> RuleResult:
                 t = norm(iff.test) if isinstance(iff, ast.If) else ""
                 if not (" in (Unknown, Null)" in t or " in (Null, Unknown)" in t or t.endswith("is Null") or t.endswith("is Unknown")):
                     ok = False
+                # what is tested is the type of the field itself, not something derived from it
+                if isinstance(iff, ast.If) and isinstance(iff.test, ast.Compare) and isinstance(iff.test.left, ast.Name):
+                    ds = ctx.defs_reaching(f, iff.test.left, iff.test.left.id) or []
+                    lpv = enclosing_loop(f.module, c)
+                    lvn = norm(lpv.target) if lpv is not None else "?"
+                    if not (len(ds) == 1 and isinstance(ds[0], (ast.Assign, ast.AnnAssign)) and ds[0].value is not None and
+                            norm(ds[0].value) in (f"self.model.type[{lvn}]", f"self.model.type.get({lvn})")):
+                        ok = False
             only_fw = k.name.startswith(("Pydantic", "SqlModel"))
             rr.ob(f.relpath, f.qualname, "; ".join(norm(f.module.parents.get(c).test) for c in conts if isinstance(f.module.parents.get(c), ast.If)),
                   "fields are skipped only when their type is Unknown or Null (every observed value null), and only for "
@@ -1091,4 +1121,60 @@ def rule_iface1(ctx: Ctx) -> RuleResult:
               "same member" if reads and writes else f"__iter__ reads it: {reads}; replace writes it: {writes}", k.node.lineno)
     if n < 8:
         raise AnalysisError(f"IFACE-1: only {n} IR node classes found")
+    return rr
+
+
+def rule_nf9(ctx: Ctx) -> RuleResult:
+    """NF-9: every container branch of optimize_type simplifies its content on every way out."""
+    rr = RuleResult("NF-9", "no container is handed back with unsimplified content", floor=3)
+    prog = ctx.prog
+    f = prog.func(GEN, "MetadataGenerator.optimize_type")
+    simp = {f, prog.func(GEN, "MetadataGenerator._optimize_union")}
+    p = [a for a in f.params if a != "self"][0]
+    containers = ("DUnion", "DOptional", "SingleType", "ComplexType", "dict", "DList", "DDict", "DTuple")
+    st = ("inside the branch for a container type, every return comes after the content went through optimize_type: an early "
+          "return for a 'simple' case hands back a fields dict, a union or a list that was never simplified")
+
+    def calls_simplifier(e) -> bool:
+        return any(isinstance(x, ast.Call) and any(isinstance(t, FuncInfo) and t in simp for t in ctx.cg.resolve_call(f, f.module, x))
+                   for x in ast.walk(e))
+
+    n = 0
+    for iff in walk_no_nested(f.node):
+        if not isinstance(iff, ast.If):
+            continue
+        t = norm(iff.test)
+        m = [c for c in containers if f"isinstance({p}, {c})" in t or f"isinstance({p}, ({c}" in t]
+        if not m:
+            continue
+        n += 1
+        # locals that hold a simplified value
+        good_locals = set()
+        for x in iff.body:
+            for y in ast.walk(x):
+                if isinstance(y, ast.Assign) and calls_simplifier(y.value):
+                    for tg in y.targets:
+                        if isinstance(tg, ast.Name):
+                            good_locals.add(tg.id)
+                        elif isinstance(tg, ast.Subscript) and isinstance(tg.value, ast.Name):
+                            good_locals.add(tg.value.id)
+        changed_ = True
+        while changed_:
+            changed_ = False
+            for x in iff.body:
+                for y in ast.walk(x):
+                    if isinstance(y, ast.Assign) and any(isinstance(z, ast.Name) and z.id in good_locals for z in ast.walk(y.value)):
+                        for tg in y.targets:
+                            if isinstance(tg, ast.Name) and tg.id not in good_locals:
+                                good_locals.add(tg.id)
+                                changed_ = True
+        for r in [y for x in iff.body for y in ast.walk(x) if isinstance(y, ast.Return)]:
+            rr.instances += 1
+            ok = r.value is not None and (calls_simplifier(r.value) or any(
+                isinstance(y, ast.Name) and y.id in good_locals for y in ast.walk(r.value)))
+            rr.ob(f.relpath, f.qualname, norm(r)[:70], st, DISCHARGED if ok else VIOLATED,
+                  f"branch for {m[0]}: the returned value is built from simplified content" if ok else
+                  f"branch for {m[0]}: `{norm(r)[:50]}` returns without simplifying what the {m[0]} holds", r.lineno)
+    if n < 3:
+        raise AnalysisError(f"NF-9: only {n} container branches found in optimize_type")
     return rr
